@@ -2,6 +2,7 @@
 import random
 
 from .. import drv_error as D
+from ..core import pmap
 
 KINDS = ("DDM", "EDDM", "STEPD")
 
@@ -21,16 +22,13 @@ def run(ctx):
         params = D.small_params(k)
         if q:
             params = [params[i] for i in sorted(ctx.rng.sample(range(len(params)), 4))]
-        traces = [D.run(k, p, s) for p in params for s in D.all_sequences(n)]
+        traces = pmap(D.run, [(k, p, s) for p in params for s in D.all_sequences(n)])
         ctx.validate(k, traces, "%s all 2^%d sequences x %d configurations" % (k, n, len(params)),
                      sabotage=D.sabotage, replay=replayer(traces))
     # 3. conformance, long piecewise-stationary random sequences, production-like parameters
     nt, ln = (40, 1500) if q else (300, 5000)
     for k in KINDS:
-        traces = []
-        for i in range(nt):
-            p = D.random_params(k, ctx.rng)
-            traces.append(D.run(k, p, D.piecewise(ctx.rng, ln)))
+        traces = pmap(D.run, [(k, D.random_params(k, ctx.rng), D.piecewise(ctx.rng, ln)) for i in range(nt)])
         ctx.validate(k, traces, "%s long random streams" % k, sabotage=D.sabotage, replay=replayer(traces),
                      nontrivial=lambda t: sum(1 for e in t["ev"] if e["state"] == "drift") >= 2)
     ctx.assumptions += ["standard normal quantiles z(1-alpha) for STEPD come from scipy.stats.norm.ppf (trusted table)",
